@@ -55,15 +55,16 @@ NEW = {
             "FRAME (only keys handed to Accumulate can change), existing .grad added to in place with the same "
             "storage / created when absent, FRESH STORAGE (store_wf + extends: pre-existing storages kept, created "
             "ones new and shared with no other .grad), n identical calls = n-fold accumulation, and REFINEMENT of "
-            "the abstract accumulator over all histories of backward calls (accepted or rejected) interleaved "
-            "with zero_(), =None and in-place edits. Correspondence: random histories (1-6 ops) incl. "
+            "the abstract accumulator over ALL histories: backward (accepted or rejected), mtl_backward (accepted, or "
+            "rejected for its arguments), bare engine runs, zero_(), =None and in-place edits (C06_refines_accumulator_full); "
+            "n-fold accumulation also for mtl_backward. Correspondence: random histories (1-6 ops) incl. "
             "mtl_backward, pre-existing .grad (half of them views of one buffer): outcomes, final values, "
             "None-ness and the storage partition must equal History.hrun; observed on the implementation only: "
             "tensor values unchanged, .grad objects keep their identity, torch.autograd.backward never called.",
             "DESIGN.md §8 C06, §15",
             "Trusted: as C01. Tensor values are not part of the model's store (no transform can write them): "
-            "that clause is an observation, not a theorem. Histories containing mtl_backward are covered by "
-            "C02_deposit per call and by the correspondence, not by the refinement theorem.",
+            "that clause is an observation, not a theorem. A failed mtl_backward that is not an argument rejection (an engine "
+            "failure in a later task) is not atomic and is excluded from the refinement theorem.",
             "Coq proof (invariants over all terms/histories) + history correspondence"),
     "C12": ("proof",
             "Coq theorems (props/C12.v, axiom-free): on EVERY finite graph (cyclic or not) the model of the "
@@ -86,7 +87,9 @@ NEW = {
             "sabotage), issues exactly the plan's sweeps (all but the last retained) and frees exactly what one "
             "run with the caller's flag frees; backward/mtl_backward end with the freed set of one "
             "torch.autograd run (per task + trunk for mtl); with retain_graph=True the freed set is unchanged for "
-            "ANY pipeline; follow-up success is a function of the freed set only. Correspondence: 700+ histories "
+            "ANY pipeline; follow-up success is a function of the freed set only; for mtl_backward the property's side "
+            "condition (heads_separate: pairwise disjoint saved-node sets) is SUFFICIENT for acceptance with both flags and "
+            "NECESSARY with retain_graph=False (two heads sharing a saved node => RuntimeError). Correspondence: 700+ histories "
             "of 2-3 calls over {backward, mtl_backward, torch.autograd.grad} x flags x chunk sizes: per-call "
             "success/RuntimeError and final .grad equal (a) the Coq model History.hrun and (b) a twin graph "
             "driven by torch.autograd alone.",
@@ -94,7 +97,7 @@ NEW = {
             "Trusted: the engine's freeing rule (executed nodes holding saved tensors are released) is an "
             "environment model in Autojac.v (ag_sweep/exec_nodes), validated against the real engine by the "
             "histories; partial freeing inside a failed run is not modelled (histories stop at the first failure). "
-            "mtl_backward with retain_graph=False is claimed under the property's side condition (separate heads).",
+            "mtl_backward with retain_graph=False is claimed under the property's side condition, which is formalised and proved exact.",
             "Coq proof (sweep/flag logic) + history correspondence vs engine and torch-only twin"),
     "C14": ("proof",
             "Coq theorems (props/C14.v, axiom-free) by structural induction on transform terms - any key "
